@@ -2478,6 +2478,15 @@ def _pmul(a, b):
     return {m: c for m, c in out.items() if c != 0}
 
 
+def _pmul_idx(a, b):
+    out = {}
+    for ma, ca in a.items():
+        for mb, cb in b.items():
+            m = tuple(sorted(ma + mb))
+            out[m] = out.get(m, 0) + ca * cb
+    return {m: c for m, c in out.items() if c != 0}
+
+
 def poly(tu, e):
     """integer polynomial over variable ids: {monomial (sorted tuple of ids): coefficient}; anything that is
     not +, -, *, a literal or a variable becomes an opaque symbol"""
@@ -2502,6 +2511,52 @@ def poly(tu, e):
         if len(pa) * len(pb) <= 64:
             return _pmul(pa, pb)
     return {(("opaque", re.sub(r"\s+", "", tu.text_of(e))),): 1}
+
+
+def _single_defs(f):
+    """local variables with exactly one definition in the whole function -> defining expression"""
+    cache = getattr(f, "_single_defs", None)
+    if cache is None:
+        defs = {}
+        for lhs, rhs in f.assigns:
+            if lhs.get("kind") == "VarDecl":
+                defs.setdefault(lhs["id"], []).append(rhs)
+            else:
+                l = strip(lhs)
+                if l.get("kind") == "DeclRefExpr":
+                    defs.setdefault(l["referencedDecl"]["id"], []).append(rhs)
+        stored = {}
+        for lv in f.stores:
+            l = strip(lv)
+            if l.get("kind") == "DeclRefExpr":
+                stored[l["referencedDecl"]["id"]] = stored.get(l["referencedDecl"]["id"], 0) + 1
+        cache = {}
+        for v, lst in defs.items():
+            d = f.vars.get(v)
+            is_decl_init = d is not None and d.get("kind") == "VarDecl" and var_init(d) is not None
+            total = stored.get(v, 0) + (1 if is_decl_init else 0)
+            if len(lst) == 1 and total == 1 and v not in f.pidx:
+                cache[v] = lst[0]
+        f._single_defs = cache
+    return cache
+
+
+def poly_inlined(f, e, depth=3):
+    """poly(e) with single-definition arithmetic locals replaced by their definition"""
+    pl = poly(f.tu, e)
+    defs = _single_defs(f)
+    for _ in range(depth):
+        subst = {s_ for m in pl for s_ in m if s_ in defs and is_arith(qt(f.vars.get(s_, {})))}
+        if not subst:
+            break
+        out = {}
+        for m, c in pl.items():
+            term = {(): c}
+            for s_ in m:
+                term = _pmul(term, poly(f.tu, defs[s_]) if s_ in subst else {(s_,): 1})
+            out = _padd(out, term)
+        pl = out
+    return pl
 
 
 def _loops_of(body):
@@ -2548,7 +2603,7 @@ def row_footprint(prog, g, p):
 
     def to_param_poly(e):
         out = {}
-        for m, c in poly(g.tu, e).items():
+        for m, c in poly_inlined(g, e).items():
             mm = []
             for s_ in m:
                 if s_ not in pid:
@@ -2571,11 +2626,16 @@ def row_footprint(prog, g, p):
                     g.pts.get(l["referencedDecl"]["id"]) == {("param", p)}:
                 sp = poly(g.tu, kids(n)[1])
                 if len(sp) == 1 and list(sp.values())[0] == 1 and len(list(sp)[0]) == 1 and list(sp)[0][0] in pid:
-                    if len(ls) == 1 and ls[0][1] is not None:
-                        rows = to_param_poly(ls[0][1])
-                        if rows is not None:
-                            res.append((rows, pid[list(sp)[0][0]]))
-                            continue
+                    if ls and all(x[1] is not None for x in ls):
+                        rows = {(): 1}
+                        for x in ls:
+                            b_ = to_param_poly(x[1])
+                            if b_ is None:
+                                return None
+                            rows = {tuple(sorted(m1 + m2)): c1 * c2 for m1, c1 in rows.items() for m2, c2 in b_.items()} \
+                                if len(rows) * len(b_) == 1 else _pmul_idx(rows, b_)
+                        res.append((rows, pid[list(sp)[0][0]]))
+                        continue
                     return None
         if lhs is None:
             continue
@@ -2647,15 +2707,19 @@ def fill_extents(prog, rels):
                                 if sidx >= len(args):
                                     continue
                                 rows = {}
+                                disp = {}
                                 bad = False
                                 for m, c in rows_pp.items():
                                     term = {(): c}
+                                    dterm = {(): c}
                                     for ai in m:
                                         if ai >= len(args):
                                             bad = True
                                             break
-                                        term = _pmul(term, poly(f.tu, args[ai]))
+                                        term = _pmul(term, poly_inlined(f, args[ai]))
+                                        dterm = _pmul(dterm, poly(f.tu, args[ai]))
                                     rows = _padd(rows, term)
+                                    disp = _padd(disp, dterm)
                                 if bad:
                                     continue
                                 stride = poly(f.tu, args[sidx])
@@ -2682,7 +2746,7 @@ def fill_extents(prog, rels):
                                         const_rows = rows.get((), 0) if set(rows) <= {()} else None
                                         if const_rows is None or const_rows > c:
                                             overlaps.append((f.vars.get(iv_, {}).get("name", "?"), c))
-                                recs.append({"q": list(objs)[0][1], "rows": rows, "stride": stride, "callee": nm,
+                                recs.append({"q": list(objs)[0][1], "rows": rows, "disp": disp, "stride": stride, "callee": nm,
                                              "overlaps": overlaps, "node": n})
                 arms.append(recs)
             if len(arms) != 2 or not arms[0] or not arms[1]:
@@ -2719,7 +2783,7 @@ def fill_extents(prog, rels):
                     d = _padd(known0[0]["rows"], known1[0]["rows"], -1)
                     if d and set(d) <= {()}:
                         problems.append("one arm writes %s rows per call (%s), the other %s rows (%s)" % (
-                            show(known0[0]["rows"]), known0[0]["callee"], show(known1[0]["rows"]), known1[0]["callee"]))
+                            show(known0[0]["disp"]), known0[0]["callee"], show(known1[0]["disp"]), known1[0]["callee"]))
                     elif d:
                         undecided = True
                 else:
@@ -2734,10 +2798,10 @@ def fill_extents(prog, rels):
                             "the %s arm calls %s once per value of `%s`, each call writing %s rows but starting only %d "
                             "row(s) after the previous one: the calls overlap and together write (trip count + %s - %d) "
                             "rows, whereas the other arm writes %s rows at the same base" % (
-                                "first" if mine is known0 else "second", r["callee"], kname, show(r["rows"]), c,
-                                show(r["rows"]), c, show(other[0]["rows"])))
+                                "first" if mine is known0 else "second", r["callee"], kname, show(r["disp"]), c,
+                                show(r["disp"]), c, show(other[0]["disp"])))
                 out.append({"func": f, "node": ifn, "ok": not problems, "unknown": undecided and not problems,
                             "inst": inst, "detail": "; ".join(problems) if problems else (
-                                "row counts not comparable" if undecided else "same rows per call (%s), no overlapping fill" % show(known0[0]["rows"])),
+                                "row counts not comparable" if undecided else "same rows per call (%s), no overlapping fill" % show(known0[0]["disp"])),
                             "pname": pname})
     return out
